@@ -101,6 +101,43 @@ Proof.
 Qed.
 Print Assumptions C05_pool_sync.
 
+(* Fork switch of the sync path (fork_block.go triggerOnChain): lighter-fork test, common-ancestor
+   search by height, prove-value tie test, removeFromCommonAncestor on the first call, then the fork's
+   blocks height by height through consensusVerify + addBlockOnChain, stopping at the first block that
+   is missing, already there or not added. Whatever the fork holds (any blocks of U at any heights, a
+   stale header, a segment that stops half way), whatever orphans wait: after the call the store is the
+   image of a chain; cut after ANY write prefix, with interrupted restarts, one complete restart gives
+   such a state again; the volatile state stays sound. *)
+Theorem C05_fork_switch_safe : forall U gen, tree_ok U -> forall fuel v s fk,
+  vol_ok U gen v -> fork_ok U fk -> Inv U gen s ->
+  let '(ws, _, _, v', _) := fork_trigger fuel v s fk in
+  Inv U gen (apply ws s) /\ vol_ok U gen v' /\
+  forall k js, Inv U gen (recover (faults js (crash k ws s))).
+Proof.
+  intros U gen [H1 H2] fuel v s fk Hv Hf HI.
+  pose proof (fork_crash_safe U gen H1 H2 fuel v s fk Hv Hf HI) as K.
+  destruct HI as [l [Hc R]].
+  destruct (fork_trigger fuel v s fk) as [[[[ws ok] fk'] v2] ex] eqn:E0. cbn [fst] in K.
+  destruct (fork_trigger_ok U gen H1 H2 fuel v s fk l Hv Hf Hc R _ _ _ _ _ E0) as [_ V].
+  split. exact (proj1 (K 0%nat [])). split. exact V. intros k js. exact (proj2 (K k js)).
+Qed.
+Print Assumptions C05_fork_switch_safe.
+
+(* the fork object itself: created on a chain block, fed blocks of U *)
+Theorem C05_fork_wellformed : forall (U : block -> Prop) a, U a -> fork_ok U (fork_new a) /\
+  forall fk b, fork_ok U fk -> U b -> fork_ok U (fst (fork_add fk b)).
+Proof. intros U a Ua. split. now apply fork_new_ok. intros. now apply fork_add_ok. Qed.
+
+(* verifiedBlocks is an lru of 20: the 21st verification evicts the oldest entry (replayed on the real
+   code by the harness's scripted history: a cached, weight-refused block is refused by weight while
+   cached and by the executed-transaction check once evicted). All theorems above hold for every cache
+   content that is sound (vf_ok), which every operation of the model preserves. *)
+Example C05_cache_capacity :
+  let vf := fold_left (fun v h => vf_add h v) (map N.of_nat (seq 1 21)) [] in
+  length vf = 20%nat /\ vmem vf 1 = false /\ vmem vf 2 = true /\ vmem vf 21 = true /\
+  vmem (vf_get 2 vf) 2 = true /\ vmem (vf_add 22 (vf_get 2 vf)) 2 = true /\ vmem (vf_add 22 vf) 2 = false.
+Proof. vm_compute. repeat split; reflexivity. Qed.
+
 (* First start. insertGenesisBlock cut after ANY number k of its store writes (state commit, hash index,
    height index, verify hash, head record), then a start that completes: the store is the image of
    [genesis]. (Genesis carries no transactions.) This holds for the write order of /repo 672c8b4; with
@@ -132,8 +169,8 @@ Qed.
 (* The hypotheses are satisfiable: the image of [genesis] satisfies Inv; delivering a2 (orphan), a1
    (pulls a2 in), b1 (heavier fork: two removals and an insert) ends with head b1. *)
 Example C05_example :
-  Inv U0 g0 (st_of [g0]) /\ vol_ok U0 g0 (fun _ => None, fun _ => false) /\
-  let s := fst (run 10 (fun _ => None, fun _ => false) (st_of [g0]) [a2; a1; b1]) in
+  Inv U0 g0 (st_of [g0]) /\ vol_ok U0 g0 (fun _ => None, []) /\
+  let s := fst (run 10 (fun _ => None, []) (st_of [g0]) [a2; a1; b1]) in
   option_map hash (cur s) = Some 4 /\ is_some (byHeight s 2) = false /\ is_some (byHash s 2) = false /\
   map (exec s) [7; 8; 9] = [false; false; true].
 Proof.
@@ -147,7 +184,7 @@ Qed.
    finds the transaction in the executed store and refuses the block (AddBlockFailed) before the fork
    choice is reached; the head stays. (Safe for this property; such forks are left to the sync path.) *)
 Example C05_example_shared_tx_refused :
-  let '(s, _, r) := deliver 10 (fun _ => None, fun _ => false) (fst (run 10 (fun _ => None, fun _ => false) (st_of [g0]) [a1])) c1 in
+  let '(s, _, r) := deliver 10 (fun _ => None, []) (fst (run 10 (fun _ => None, []) (st_of [g0]) [a1])) c1 in
   r = RFailed /\ option_map hash (cur s) = Some 2.
 Proof. vm_compute. split; reflexivity. Qed.
 
@@ -180,3 +217,27 @@ Proof.
   exists 4%nat. cbn zeta. split; [reflexivity|]. split; [reflexivity|].
   intro R. pose proof (r_vhash _ _ R 0) as H. vm_compute in H. discriminate.
 Qed.
+
+
+(* Weight clause across a fork switch: REFUTED for the code as it is. Local chain g0 - x1 (QN 3). The
+   peer's chain g0 - f1 - f2 - f3 (QN 1, 2, 5) is heavier. f2 had arrived by broadcast before and waits
+   as an orphan. triggerOnChain removes x1, adds f1 - whose on-chain callback pulls the waiting f2 in -
+   and then finds f2 "already existing", which tryAddBlockOnChain counts as a failure: the switch stops
+   with head f2, QN 2 < 3, and no retry changes that. The same happens when the fork's header lies
+   below the real common ancestor (the local chain moved along the fork meanwhile). Both replayed on
+   the real code by the harness (keys C05/weight:qn-decreased-fork-switch:<cause>). The store stays the image
+   of a chain (C05_fork_switch_safe). *)
+Definition x1 := mkB 6 1 1 3 1 110 [].
+Definition f1 := mkB 7 1 1 1 1 111 [].
+Definition f2 := mkB 8 7 2 2 1 112 [].
+Definition f3 := mkB 9 8 3 5 1 113 [].
+
+Example C05_fork_switch_weight_refuted :
+  let v0 : vol := (fun _ => None, []) in
+  let '(s1, v1) := run 10 v0 (st_of [g0]) [f2; x1] in
+  let fk := fst (fork_add (fst (fork_add (fst (fork_add (fork_new g0) f1)) f2)) f3) in
+  let '(ws, done, fk', v2, _) := fork_trigger 10 v1 s1 fk in
+  option_map qn (cur s1) = Some 3 /\ qn (f_latest fk) = 5 /\
+  done = false /\ option_map qn (cur (apply ws s1)) = Some 2 /\
+  (let '(ws', done', _, _, _) := fork_trigger 10 v2 (apply ws s1) fk' in ws' = [] /\ done' = false).
+Proof. vm_compute. repeat split; reflexivity. Qed.
